@@ -2040,6 +2040,7 @@ func (t *c14tState) caseTx() {
 	}
 	if meta.isBox {
 		t.checkBox("orig", tx, meta, enc)
+		t.checkBoxForgedHashMember(tx, meta)
 	}
 	// JSON round trip
 	var js []byte
@@ -2151,6 +2152,57 @@ func (t *c14tState) checkBox(stage string, tx *types.Transaction, meta *c14tTxMe
 			}
 			t.c.Count(fmt.Sprintf("info:box-subtx-hash-changed-cause:nonutf8-message=%v", meta.badMsgUTF8))
 			t.fail(c14tJSONSig(meta.badMsgUTF8, "box-subtx-hash"), fmt.Sprintf("(%s) sub-tx %d: hash %s when packed, %s after GetBox%s; sub-tx now %s", stage, i, meta.subHashes[i].Hex(), got, why, c14tTxString(s)), string(tx.Data()))
+		}
+	}
+}
+
+// checkBoxForgedHashMember: the "hash" member of a sub-tx inside the JSON box payload is DERIVED data (rlp:"-", unsigned). A payload that
+// claims another hash (or none) for a sub-tx must decode to sub-txs whose Hash() is still the hash of their CONTENT: the box hash is taken
+// over the sub-tx hashes and every duplicate / replay defence is keyed by them.
+func (t *c14tState) checkBoxForgedHashMember(tx *types.Transaction, meta *c14tTxMeta) {
+	if meta.badMsgUTF8 || meta.badNameUTF8 || !meta.sigLenOK || meta.nilSubs || len(meta.subHashes) == 0 {
+		return
+	}
+	var m map[string]interface{}
+	if json.Unmarshal(tx.Data(), &m) != nil {
+		return
+	}
+	list, _ := m["subTxList"].([]interface{})
+	if len(list) != len(meta.subHashes) {
+		return
+	}
+	for _, mode := range []string{"claims-other-hash", "claims-zero-hash", "no-hash-member"} {
+		for i, it := range list {
+			sm, ok := it.(map[string]interface{})
+			if !ok {
+				return
+			}
+			switch mode {
+			case "claims-other-hash":
+				sm["hash"] = common.BytesToHash([]byte(fmt.Sprintf("c14-forged-%d-%d", i, t.c.Rnd.Int63()))).Hex()
+			case "claims-zero-hash":
+				sm["hash"] = common.Hash{}.Hex()
+			case "no-hash-member":
+				delete(sm, "hash")
+			}
+		}
+		payload, _ := json.Marshal(m)
+		var box *types.Box
+		err, pan := c14tTry(func() error {
+			var e error
+			box, e = types.GetBox(payload)
+			return e
+		})
+		if err != nil || pan != "" || len(box.SubTxList) != len(meta.subHashes) {
+			t.c.Count("typed:tx:box-forged-hash-member:" + mode + ":rejected")
+			continue
+		}
+		t.c.Count("typed:tx:box-forged-hash-member:" + mode + ":decoded")
+		for i, sub := range box.SubTxList {
+			if got := c14tTxHash(sub); got != meta.subHashes[i].Hex() {
+				t.fail("c14/box-subtx-hash/json-hash-member-trusted", fmt.Sprintf("box payload whose sub-tx %d %s: GetBox gives it hash %s, the hash of its content is %s (the member is derived, unsigned data)", i, mode, got, meta.subHashes[i].Hex()), string(payload))
+				break
+			}
 		}
 	}
 }
